@@ -145,14 +145,16 @@ type BuildCase struct {
 	DebCompression  string            `json:"deb_compression,omitempty"`
 	RPMCompression  string            `json:"rpm_compression,omitempty"`
 	RPMBuildHost    string            `json:"rpm_buildhost,omitempty"`
-	Scripts         map[string]string `json:"scripts,omitempty"`     // slot -> Rel of a tree node; slots: preinstall, ..., rpm.pretrans, deb.rules, apk.preupgrade, archlinux.postupgrade
-	Changelog       string            `json:"changelog,omitempty"`   // Rel of tree node with chglog yaml
-	Extra           map[string]any    `json:"extra,omitempty"`       // extra top-level YAML (format blocks etc.), merged in
-	X               *Extras           `json:"x,omitempty"`           // typed format-specific blocks
-	Constraints     bool              `json:"constraints,omitempty"` // decorate every second relation item with a version constraint in the target format's syntax
-	Signed          bool              `json:"signed,omitempty"`      // sign deb, rpm and apk with the harness' unprotected test keys
-	MTimeEpoch      bool              `json:"mtime_epoch,omitempty"` // package mtime is exactly 1970-01-01T00:00:00Z (MTime must be 0)
-	Again           bool              `json:"again,omitempty"`       // C01: package the same tree a second time under another umask
+	Scripts         map[string]string `json:"scripts,omitempty"`          // slot -> Rel of a tree node; slots: preinstall, ..., rpm.pretrans, deb.rules, apk.preupgrade, archlinux.postupgrade
+	Changelog       string            `json:"changelog,omitempty"`        // Rel of tree node with chglog yaml
+	Extra           map[string]any    `json:"extra,omitempty"`            // extra top-level YAML (format blocks etc.), merged in
+	X               *Extras           `json:"x,omitempty"`                // typed format-specific blocks
+	Constraints     bool              `json:"constraints,omitempty"`      // decorate every second relation item with a version constraint in the target format's syntax
+	Signed          bool              `json:"signed,omitempty"`           // sign deb, rpm and apk with the harness' unprotected test keys
+	MTimeEpoch      bool              `json:"mtime_epoch,omitempty"`      // package mtime is exactly 1970-01-01T00:00:00Z (MTime must be 0)
+	TreeOwnerProbe  bool              `json:"tree_owner_probe,omitempty"` // C01: the directed probe "tree with an owner at a well-known directory"
+	ManyFilesProbe  bool              `json:"many_files_probe,omitempty"` // C01: the directed probe "more files than may be open at once" (CLI under ulimit -n)
+	Again           bool              `json:"again,omitempty"`            // C01: package the same tree a second time under another umask
 	Formats         []string          `json:"formats,omitempty"`
 	RelSrc          bool              `json:"rel_src,omitempty"` // reference sources by relative path (needs cwd = root)
 }
